@@ -90,6 +90,27 @@ def refuse_before_close_rules(facts, rep, rule="C12-TS"):
         before = [e_[1] for e_, ep_ in zip(p_["effects"], p_["epos"]) if ep_ <= dp]
         if any(re.search(r"::finish_file$|::switch_to$|Seek::seek$|Write::write", x_) for x_ in before):
             bad += 1
+    # the same for finish(): an over-long archive comment is refused before the last entry is closed (the caller may shorten the comment
+    # and call finish() again; the first, refused call must not have consumed the raw flag of a copied last entry)
+    fz = facts.one(ZW + "finalize$")
+    try:
+        pz = _paths(fz, max_paths=30000)
+    except PathExplosion:
+        pz = []
+    nz = badz = 0
+    for p_ in pz:
+        dec = [(i_, v_) for i_, (a_, v_) in enumerate(p_["decisions"]) if re.match(r"^(Gt|Ge)\(.*len\(.*comment.*, 6553[56]\)$", a_)]
+        if not dec or dec[-1][1] != 1 or outcome(p_)[0] not in ("Err", "ErrProp", "value"):
+            continue
+        nz += 1
+        dp = p_["dpos"][dec[-1][0]]
+        before = [e_[1] for e_, ep_ in zip(p_["effects"], p_["epos"]) if ep_ <= dp]
+        if any(re.search(r"::finish_file$|::switch_to$|Seek::seek$|Write::write", x_) for x_ in before):
+            badz += 1
+    rep.check(nz >= 1 and badz == 0, rule, "I5:refused-finish-leaves-writer-untouched", where(fz, fz.span),
+              "the comment-length refusal of finalize precedes finish_file",
+              "finalize closes the last entry (consuming its raw flag) BEFORE it refuses an over-long comment (or the refusal is gone): finish() -> Err, shorter comment, "
+              "finish() -> Ok re-patches a raw-copied last entry")
     return bool(rep.check(n >= 1 and bad == 0, rule, "I5:refused-start-leaves-writer-untouched", where(se, se.span),
                           "the name-length refusal of start_entry precedes finish_file (no state is consumed by a call that is refused for its arguments)",
                           "start_entry closes the previous entry (consuming its raw flag) BEFORE it refuses an over-long name: after raw_copy_file / new_append, "
